@@ -132,12 +132,19 @@ def pop_job(job):
         cols = list(ra.columns)
         rb = gs.compute(pd.concat([B, A], ignore_index=True), date, targets=cols, rounding=False)
         rc = gs.compute(A.iloc[::-1].reset_index(drop=True), date, targets=cols, rounding=False)
+        # the float inputs stored as float32 / float16-exact values: the dtype of every result follows its declared type,
+        # not the storage width of an input
+        A32 = A.copy()
+        for c_ in A32.columns:
+            if A32[c_].dtype == np.float64 and np.array_equal(A32[c_].to_numpy().astype(np.float32).astype(np.float64), A32[c_].to_numpy()):
+                A32[c_] = A32[c_].astype(np.float32)
+        rd = gs.compute(A32, date, targets=cols, rounding=False)
     except Exception:  # noqa: BLE001
         return []
     k = {"f": "f", "i": "i", "u": "i", "b": "b"}
     out = []
     for c in cols:
-        for tag, r in (("A", ra), ("B+A", rb), ("reversed", rc)):
+        for tag, r in (("A", ra), ("B+A", rb), ("reversed", rc), ("float32-inputs", rd)):
             out.append({"fn": f"{tid}:{c}", "declared": "?", "order": tag, "scalar": [], "column": [], "dtype": k.get(r[c].dtype.kind, r[c].dtype.kind), "date": date})
     return out
 
